@@ -42,28 +42,92 @@ type c12Step struct {
 }
 
 type c12Case struct {
+	// P: client configuration profile (c12Profiles): node/cluster, password or not,
+	// and the must-fail configurations. How: the constructor used for every *Redis.
+	P     int       `json:"p,omitempty"`
+	How   int       `json:"how,omitempty"`
 	Steps []c12Step `json:"steps"`
 }
 
 // ---------------------------------------------------------------- environment
 
+// c12Profile: one client configuration. The server pair of a profile requires `pass`;
+// the wrapper AND the raw go-redis reference client are configured with `cfgPass`
+// ("the same credentials"). cfgPass != pass is the must-fail class: both sides must
+// then fail in the same way and leave the servers untouched.
+// Every profile owns its servers: the wrapper's client/cluster managers cache one
+// client per address for the life of the process, so an address never changes its
+// configuration.
+type c12Profile struct {
+	name    string
+	typ     string // NodeType | ClusterType (a single miniredis acting as a one-node cluster)
+	pass    string
+	cfgPass string
+}
+
+const c12Secret = "c12-s3cret"
+
+var c12Profiles = []c12Profile{
+	{"node", NodeType, "", ""},
+	{"node+pass", NodeType, c12Secret, c12Secret},
+	{"cluster", ClusterType, "", ""},
+	{"cluster+pass", ClusterType, c12Secret, c12Secret},
+	{"mustfail:node-wrong-pass", NodeType, c12Secret, "wrong"},
+	{"mustfail:node-missing-pass", NodeType, c12Secret, ""},
+	{"mustfail:cluster-missing-pass", ClusterType, c12Secret, ""},
+}
+
+func (p c12Profile) mustFail() bool { return p.pass != p.cfgPass }
+func (p c12Profile) cluster() bool  { return p.typ == ClusterType }
+
 type c12Twins struct {
+	prof   c12Profile
 	mA, mB *miniredis.Miniredis
 	admA   *red.Client // raw client to A: used for housekeeping only (SCRIPT FLUSH)
-	rawB   *red.Client // the reference client
+	// rawB: the reference client, raw go-redis with the same credentials: a *red.Client
+	// for node profiles, a *red.ClusterClient for cluster profiles (the go-redis client
+	// that corresponds to Type=cluster)
+	rawB interface {
+		red.Cmdable
+		Close() error
+	}
 	blockA ClosableNode
-	// mD: decoy server whose wrapper client is created AFTER the one of A, so that A's
-	// client is never the most recently created one in the process (see burst steps).
+	// mD (profile "node" only): decoy server whose wrapper client is created AFTER the
+	// one of A, so that A's client is not the most recently created one (burst steps).
 	mD *miniredis.Miniredis
 }
 
+// newRedis builds a *Redis for server A of the profile in one of the ways an
+// application does: New(addr, options...), Config.NewRedis(), KeyConfig's NewRedis().
+func (tw *c12Twins) newRedis(how int) *Redis {
+	p := tw.prof
+	conf := Config{Host: tw.mA.Addr(), Type: p.typ, Pass: p.cfgPass}
+	switch how % 3 {
+	case 1:
+		return conf.NewRedis()
+	case 2:
+		return KeyConfig{Config: conf, Key: "c12"}.NewRedis()
+	}
+	var opts []Option
+	if p.cluster() {
+		opts = append(opts, WithCluster())
+	}
+	if p.cfgPass != "" {
+		opts = append(opts, WithPass(p.cfgPass))
+	}
+	return New(tw.mA.Addr(), opts...)
+}
+
 var (
-	c12Once sync.Once
-	c12T    c12Twins
-	c12T0   = time.Date(2030, 1, 1, 0, 0, 0, 0, time.UTC)
+	c12Mu  sync.Mutex
+	c12Tw  = make([]*c12Twins, len(c12Profiles))
+	c12Log sync.Once
+	c12T0  = time.Date(2030, 1, 1, 0, 0, 0, 0, time.UTC)
 )
 
 type c12CtxKey struct{}
+var c12Prof [8]time.Duration
+var c12ProfN [8]int
 
 // c12Stall: both clients re-send a command after a read timeout (3 s, go-redis
 // default; the wrapper configures MaxRetries 3), which executes non-idempotent commands
@@ -75,54 +139,73 @@ const c12Stall = 2 * time.Second
 
 var c12StepStall = c12Stall
 
-func c12Setup(t *testing.T) *c12Twins {
-	c12Once.Do(func() {
-		logx.Disable()
-		c12Renew(t)
-	})
-	return &c12T
+// c12Setup returns the twins of the plain profile (node, no password).
+func c12Setup(t *testing.T) *c12Twins { return c12Get(t, 0) }
+
+// c12Get returns the twins of a profile, creating its servers at first use.
+func c12Get(t *testing.T, p int) *c12Twins {
+	c12Log.Do(logx.Disable)
+	c12Mu.Lock()
+	defer c12Mu.Unlock()
+	if c12Tw[p] == nil {
+		c12Tw[p] = &c12Twins{prof: c12Profiles[p]}
+		c12Renew(t, c12Tw[p])
+	}
+	return c12Tw[p]
 }
 
 // c12Renew puts fresh servers (new addresses) and fresh clients behind the twins.
-// Used at start-up and after a stalled step: a command that timed out on the client
+// Used at first use and after a stalled step: a command that timed out on the client
 // side may still be executed by the old server later ("zombie"); it must not reach
 // the servers of the following cases. The old servers are simply abandoned.
-func c12Renew(t *testing.T) {
+func c12Renew(t *testing.T, tw *c12Twins) {
 	var err error
-	if old := c12T; old.mA != nil {
+	p := tw.prof
+	if tw.mA != nil {
 		// The old servers stay up (abandoned): closing them would let the OS hand their
 		// ports to new servers, and the wrapper's process-wide client manager still
 		// holds a client with dead pooled connections for such an address.
-		old.admA.Close()
-		old.rawB.Close()
-		old.blockA.Close()
+		tw.admA.Close()
+		tw.rawB.Close()
+		tw.blockA.Close()
 	}
-	if c12T.mA, err = miniredis.Run(); err != nil {
+	if tw.mA, err = miniredis.Run(); err != nil {
 		t.Fatalf("miniredis A: %v", err)
 	}
-	if c12T.mB, err = miniredis.Run(); err != nil {
+	if tw.mB, err = miniredis.Run(); err != nil {
 		t.Fatalf("miniredis B: %v", err)
 	}
-	c12T.admA = red.NewClient(&red.Options{Addr: c12T.mA.Addr()})
-	c12T.rawB = red.NewClient(&red.Options{Addr: c12T.mB.Addr()})
-	c12T.blockA, err = CreateBlockingNode(New(c12T.mA.Addr()))
+	if p.pass != "" {
+		tw.mA.RequireAuth(p.pass)
+		tw.mB.RequireAuth(p.pass)
+	}
+	tw.admA = red.NewClient(&red.Options{Addr: tw.mA.Addr(), Password: p.cfgPass})
+	if p.cluster() {
+		tw.rawB = red.NewClusterClient(&red.ClusterOptions{Addrs: []string{tw.mB.Addr()}, Password: p.cfgPass})
+	} else {
+		tw.rawB = red.NewClient(&red.Options{Addr: tw.mB.Addr(), Password: p.cfgPass})
+	}
+	tw.blockA, err = CreateBlockingNode(tw.newRedis(0))
 	if err != nil {
 		t.Fatalf("blocking node: %v", err)
 	}
-	// warm the shared wrapper client (clientManager) of the new address
-	for i := 0; !New(c12T.mA.Addr()).Ping(); i++ {
+	// warm the shared wrapper client (client / cluster manager) of the new address
+	for i := 0; !tw.newRedis(0).Ping() && !p.mustFail(); i++ {
 		if i > 50 {
-			t.Fatalf("wrapper cannot reach miniredis A") // inconclusive run, not a verdict
+			t.Fatalf("wrapper cannot reach miniredis A (%s)", p.name) // inconclusive run, not a verdict
 		}
 		time.Sleep(100 * time.Millisecond)
 	}
+	if p.name != "node" {
+		return
+	}
 	// the closed server of the breaker rule gets its client now, so that the decoy's
-	// client below is the most recently created one whenever a history runs
+	// client below is created after both
 	c12Dead(t)
-	if c12T.mD, err = miniredis.Run(); err != nil {
+	if tw.mD, err = miniredis.Run(); err != nil {
 		t.Fatalf("miniredis D: %v", err)
 	}
-	for i := 0; !New(c12T.mD.Addr()).Ping(); i++ {
+	for i := 0; !New(tw.mD.Addr()).Ping(); i++ {
 		if i > 50 {
 			t.Fatalf("wrapper cannot reach miniredis D")
 		}
@@ -133,6 +216,7 @@ func c12Renew(t *testing.T) {
 // c12Env is the state of one interpreted case.
 type c12Env struct {
 	tw      *c12Twins
+	how     int // constructor used for every *Redis of the case (c12Twins.newRedis)
 	r       *Redis
 	fails   int // breaker-relevant failures seen by the current *Redis instance
 	now     time.Time
@@ -158,11 +242,11 @@ func (e *c12Env) reset(t *testing.T) bool {
 		tw.admA.ScriptFlush(bg)
 		tw.rawB.ScriptFlush(bg)
 		if ok = time.Since(t0) <= c12Stall; !ok {
-			c12Renew(t) // a late SCRIPT FLUSH must not hit a running case
+			c12Renew(t, e.tw) // a late SCRIPT FLUSH must not hit a running case
 		}
 	}
 	e.now = c12T0
-	e.r = New(e.tw.mA.Addr())
+	e.r = e.tw.newRedis(e.how)
 	e.fails = 0
 	return ok
 }
@@ -179,7 +263,7 @@ func (e *c12Env) noteErr(err error) {
 	}
 	e.fails++
 	if e.fails >= 4 {
-		e.r = New(e.tw.mA.Addr())
+		e.r = e.tw.newRedis(e.how)
 		e.fails = 0
 	}
 }
@@ -292,6 +376,12 @@ func c12DiffKeyspace(a, b map[string]string) string {
 
 // ---------------------------------------------------------------- interpreter
 
+// countable: the per-step "same number of processed commands" oracle applies to the
+// plain node profile only. With a password every freshly dialled connection first sends
+// AUTH (pool growth is not a function of the history), and go-redis' ClusterClient
+// reloads CLUSTER SLOTS / COMMAND from background goroutines at times of its own choosing.
+func (e *c12Env) countable() bool { return e.tw.prof.name == "node" }
+
 // c12Ctx builds the context of a step: a live one (carrying a value in the Ctx
 // form), an already cancelled one or one whose deadline has already passed. With a
 // dead context go-redis answers ctx.Err() without touching the server; "the context
@@ -313,8 +403,16 @@ func c12Ctx(s c12Step) (context.Context, context.CancelFunc) {
 }
 
 func c12Interp(t *testing.T, c c12Case) (v kit.Verdict) {
-	tw := c12Setup(t)
-	e := &c12Env{tw: tw, classes: map[string]bool{}, types: map[string]bool{}}
+	if c.P < 0 || c.P >= len(c12Profiles) {
+		v.Excluded = true
+		return v
+	}
+	tw := c12Get(t, c.P)
+	tstart := time.Now()
+	defer func() { c12Prof[c.P] += time.Since(tstart); c12ProfN[c.P]++; if c12ProfN[0]%100 == 0 { fmt.Println("PROFTIME", c12Prof, c12ProfN) } }()
+	e := &c12Env{tw: tw, how: c.How, classes: map[string]bool{}, types: map[string]bool{}}
+	e.classes["conf:"+tw.prof.name] = true
+	e.classes[fmt.Sprintf("constructor:%d", c.How%3)] = true
 	if !e.reset(t) {
 		v.Excluded = true
 		v.Classes = []string{"env:stalled-step"}
@@ -324,7 +422,7 @@ func c12Interp(t *testing.T, c c12Case) (v kit.Verdict) {
 		if p := recover(); p != nil {
 			v.Fail = fmt.Sprintf("panic while interpreting the history (a wrapper method must return go-redis' result or error): %v", p)
 		}
-		v.NonTrivial = e.ncmd >= 10 && len(e.types) >= 3 && e.hits >= 1
+		v.NonTrivial = e.ncmd >= 10 && len(e.types) >= 3 && (e.hits >= 1 || tw.prof.mustFail())
 		for k := range e.classes {
 			v.Classes = append(v.Classes, k)
 		}
@@ -337,7 +435,7 @@ func c12Interp(t *testing.T, c c12Case) (v kit.Verdict) {
 			// environment guard, never a failure: see c12Stall
 			e.classes["env:stalled-step"] = true
 			v.Excluded = true
-			c12Renew(t)
+			c12Renew(t, e.tw)
 			return v
 		}
 		if msg != "" {
@@ -428,7 +526,7 @@ func (e *c12Env) step(s c12Step) string {
 			if gerr != ctx.Err() {
 				return fmt.Sprintf("dead context (%v): wrapper returned (%s, %q), go-redis returns the context's error", ctx.Err(), c12Canon(got, false), c12ErrStr(gerr))
 			}
-			if da := e.tw.mA.CommandCount() - ca0; da != 0 {
+			if da := e.tw.mA.CommandCount() - ca0; da != 0 && e.countable() {
 				return fmt.Sprintf("dead context: the wrapper still made its server process %d commands", da)
 			}
 			return ""
@@ -447,7 +545,7 @@ func (e *c12Env) step(s c12Step) string {
 	}
 	// same effect on the server: the wrapper's server processed as many commands as
 	// the server of the corresponding go-redis call
-	if da, db := e.tw.mA.CommandCount()-ca0, e.tw.mB.CommandCount()-cb0; da != db {
+	if da, db := e.tw.mA.CommandCount()-ca0, e.tw.mB.CommandCount()-cb0; da != db && e.countable() {
 		return fmt.Sprintf("the wrapper made its server process %d commands, the go-redis call %d", da, db)
 	}
 	return ""
@@ -499,7 +597,7 @@ func (e *c12Env) pipeline(s c12Step) string {
 			return fmt.Sprintf("pipelined command %d: wrapper side %q, go-redis side %q", i, a, b)
 		}
 	}
-	if da, db := e.tw.mA.CommandCount()-na0, e.tw.mB.CommandCount()-nb0; da != db {
+	if da, db := e.tw.mA.CommandCount()-na0, e.tw.mB.CommandCount()-nb0; da != db && e.countable() {
 		return fmt.Sprintf("the wrapper's Pipelined made its server process %d commands, go-redis' Pipelined %d", da, db)
 	}
 	if len(s.P) > 0 {
@@ -522,10 +620,19 @@ const c12BurstScript = `local x = 0 for i = 1, tonumber(ARGV[2]) do x = x + 1 en
 // exactly those commands (the decoy none) and the keyspaces must agree.
 func (e *c12Env) burst(s c12Step) string {
 	k, loops := int(s.I[0]), s.I[1]
+	tw := e.tw
+	if tw.prof.mustFail() {
+		// every call fails: 12..24 failures at once on one instance would (rightly) open
+		// its breaker, the harness's "at most 4 failures per instance" cannot hold
+		e.classes["skipped:burst"] = true
+		return ""
+	}
 	e.ncmd++
 	e.classes["cmd:burst"] = true
-	tw := e.tw
-	ca0, cb0, cd0 := tw.mA.CommandCount(), tw.mB.CommandCount(), tw.mD.CommandCount()
+	ca0, cb0, cd0 := tw.mA.CommandCount(), tw.mB.CommandCount(), 0
+	if tw.mD != nil {
+		cd0 = tw.mD.CommandCount()
+	}
 	conns0 := tw.mA.TotalConnectionCount()
 	ctx, cancel := c12Ctx(c12Step{X: s.X})
 	defer cancel()
@@ -558,10 +665,12 @@ func (e *c12Env) burst(s c12Step) string {
 				c12Canon(got[i], false), c12ErrStr(gerrs[i]), c12Canon(want, false), c12ErrStr(werr))
 		}
 	}
-	if da, db := tw.mA.CommandCount()-ca0, tw.mB.CommandCount()-cb0; da != db {
+	if da, db := tw.mA.CommandCount()-ca0, tw.mB.CommandCount()-cb0; da != db && e.countable() {
 		return fmt.Sprintf("%d concurrent commands: the wrapper's own server processed %d commands, the go-redis server %d", k, da, db)
 	}
-	if dd := tw.mD.CommandCount() - cd0; dd != 0 {
+	if tw.mD == nil {
+		// profiles without a decoy
+	} else if dd := tw.mD.CommandCount() - cd0; dd != 0 {
 		return fmt.Sprintf("%d concurrent commands through the client of %s: the server of ANOTHER address (%s) processed %d commands", k, tw.mA.Addr(), tw.mD.Addr(), dd)
 	}
 	if d := c12DiffKeyspace(c12Snapshot(tw.mA), c12Snapshot(tw.mB)); d != "" {
@@ -691,8 +800,12 @@ func c12Gen(rt *rapid.T) c12Case {
 }
 
 func c12GenWith(g *c12G) c12Case {
-	n := 10 + g.uni(51)
 	var c c12Case
+	// client configuration: 8/20 plain node, 3/20 each node+pass, cluster, cluster+pass,
+	// 1/20 each must-fail configuration; constructor drawn uniformly
+	c.P = []int{0, 0, 0, 0, 0, 0, 0, 0, 1, 1, 1, 2, 2, 2, 3, 3, 3, 4, 5, 6}[g.uni(20)]
+	c.How = g.uni(3)
+	n := 10 + g.uni(51)
 	for i := 0; i < n; i++ {
 		c.Steps = append(c.Steps, c12GenStep(g, true))
 	}
